@@ -20,7 +20,7 @@ import Darling.Derive.Outer
         — second sentence (leaves = mistakes, one for one, with tags and paths): under the side
           conditions `StructOk` / `EnumOk` / `MapOk`, which exclude exactly the discrepancies
           D1–D4 between the text and the model (section 7 gives each as a concrete input; all of
-          them reproduce on the library);
+          them reproduce on the library; of D4 only the parse-failure case was repaired);
     * `outer_attr_layer_first`, `outer_body_layer` — the two layers of element-level receivers.
 -/
 set_option autoImplicit false
@@ -964,15 +964,18 @@ structure EnumDecl (e : SEnum ν) (nt : SVariant ν → Reading) (sf : SVariant 
 
 /-- the item lists on which an enum receiver returns exactly `enumMistakes`:
     * (D2) when the count is wrong, nothing else is wrong with any item;
-    * (D4) a unit variant is given as a bare name and a struct variant as a well-formed list;
-    * (depth) the content avoids D1–D4 inside -/
+    * (D4) a unit variant is given as a bare name and a struct variant as a list `name(...)`
+      (a list that does not parse is fine: that error is located under the variant's name);
+    * (depth) the content of a newtype or struct variant avoids D1–D4 inside -/
 structure EnumOk (e : SEnum ν) (nt : SVariant ν → Reading) (sf : SVariant ν → SField ν → Reading)
     (items : List NestedMeta) : Prop where
   countOnly : items.length ≥ 2 → ∀ it ∈ items, enumItem e nt sf it = []
   formFits : ∀ m, items = [.item m] → ∀ v, selectedVariant e m.path'.toStr = some v →
     (∀ val, v.kind = .unit val → ∃ p, m = .path p) ∧
     (∀ fm fn wrap, v.kind = .newtype fm fn wrap → (nt v).okItem m) ∧
-    (∀ s, v.kind = .struct s → ∃ p its ts tk sp, m = .list p its none ts tk sp ∧ StructOk s (sf v) its)
+    (∀ s, v.kind = .struct s →
+      (∃ p its bad ts tk sp, m = .list p its bad ts tk sp) ∧
+      (∀ p its ts tk sp, m = .list p its none ts tk sp → StructOk s (sf v) its))
 
 /-- the struct-variant arm is the struct parser, with the variant's name put in front of the paths -/
 theorem variant_struct_eq {s : SStruct ν} {rd : SField ν → Reading} (hd : Decl s rd) (items : List NestedMeta)
@@ -1005,8 +1008,15 @@ theorem enum_unknown_reported (e : SEnum ν) (n : String) (sp : Span) :
   unfold SEnum.unknownErr
   split <;> exact reported_new _
 
+/-- a wrong form, located under the variant's name -/
+theorem wrongForm_reports {α : Type} (k : Kind) (hk : tagOf k = .rejected) (sp : Option Span) (l : String) :
+    Reports (.err ((Err.leaf k [] sp).at l) : Outcome α) [(Tag.rejected, [l])] := by
+  have h := (Reports.leaf (α := α) k [] sp).at l
+  rw [hk] at h
+  exact h
+
 /-- **C02 for enum receivers, against the text** (conditional: `EnumOk` excludes D2, D4 and, inside a
-    struct variant, D1/D3) -/
+    newtype or struct variant, D1–D4) -/
 theorem enum_reports_partial {e : SEnum ν} {nt : SVariant ν → Reading} {sf : SVariant ν → SField ν → Reading}
     (hd : EnumDecl e nt sf) (items : List NestedMeta) (hok : EnumOk e nt sf items) :
     Reports (enumFromList e items) (enumMistakes e nt sf items) := by
@@ -1043,14 +1053,18 @@ theorem enum_reports_partial {e : SEnum ν} {nt : SVariant ν → Reading} {sf :
           | newtype fm fn wrap =>
               exact ((hd.newtype v hv fm fn wrap hk m (hnew fm fn wrap hk)).at v.name).map wrap
           | struct s =>
-              obtain ⟨p, its, ts, tk, sp, rfl, hw⟩ := hstruct s hk
               have hds := hd.struct v hv s hk
-              simp only []
-              obtain ⟨st0, h0, hfin⟩ := variant_struct_eq hds its v.name
-              rw [h0]
-              simp only []
-              rw [hfin]
-              exact (struct_reports_partial hds its hw).at v.name
+              obtain ⟨⟨p, its, bad, ts, tk, sp, rfl⟩, hso⟩ := hstruct s hk
+              cases bad with
+              | some b => exact wrongForm_reports _ rfl (some b.2) v.name
+              | none =>
+                  have hw := hso p its ts tk sp rfl
+                  simp only []
+                  obtain ⟨st0, h0, hfin⟩ := variant_struct_eq hds its v.name
+                  rw [h0]
+                  simp only []
+                  rw [hfin]
+                  exact (struct_reports_partial hds its hw).at v.name
 
 /-- **C02, first sentence, enum receivers — no side condition on the input** -/
 theorem enum_verdict {e : SEnum ν} {nt : SVariant ν → Reading} {sf : SVariant ν → SField ν → Reading}
@@ -1893,7 +1907,10 @@ theorem enumIn_ok : EnumOk enumE enumNt enumSf enumIn := by
   intro s hs
   simp at hs
   subst hs
-  refine ⟨_, _, _, _, _, rfl, ?_⟩
+  refine ⟨⟨_, _, _, _, _, _, rfl⟩, ?_⟩
+  intro p its ts tk sp hm
+  simp only [Meta.list.injEq] at hm
+  obtain ⟨_, rfl, _⟩ := hm
   simp [StructOk, WalkOk, ItemOk, enumSf, u8R, mk, fld, good, bad, pth, addressed, occurrences, nameOf,
     Path.toStr, Meta.path', inside]
 
@@ -1968,8 +1985,25 @@ example : seen (enumFromList enumE [good "unit"]) = [(.rejected, [])] := by deci
 example : enumMistakes enumE enumNt enumSf [good "unit"] = [(.rejected, ["unit"])] := by decide
 example : seen (enumFromList enumE [good "st"]) = [(.rejected, [])] := by decide
 example : enumMistakes enumE enumNt enumSf [good "st"] = [(.rejected, ["st"])] := by decide
-/-- …whereas a newtype variant does carry it -/
+/-- …whereas a newtype variant does carry it, and so does (since the repair) a struct variant
+    whose list does not parse: `e(st(<syntax error>))` -/
 example : seen (enumFromList enumE [good "new"]) = [(.rejected, ["new"])] := by decide
+def badList : NestedMeta := .item (.list (pth "st") [] (some ("expected `,`", sp0)) none "" sp0)
+example : seen (enumFromList enumE [badList]) = [(.rejected, ["st"])] := by decide
+example : enumMistakes enumE enumNt enumSf [badList] = [(.rejected, ["st"])] := by decide
+/-- that input meets `EnumOk`: no side condition is needed for the parse failure -/
+theorem badList_ok : EnumOk enumE enumNt enumSf [badList] := by
+  refine ⟨by simp, ?_⟩
+  intro m hm v hv
+  simp [badList] at hm
+  subst hm
+  simp [selectedVariant, enumE, pth, Path.toStr, Meta.path'] at hv
+  subst hv
+  refine ⟨by simp, by simp, ?_⟩
+  intro s hs
+  exact ⟨⟨_, _, _, _, _, _, rfl⟩, by intro p its ts tk sp hm; simp at hm⟩
+example : Reports (enumFromList enumE [badList]) [(.rejected, ["st"])] :=
+  enum_reports_partial enumE_decl [badList] badList_ok
 
 /-- **D5** (`NamesDistinct` is needed) `struct S { a: u8, #[darling(rename = "a")] b: u8 }` on
     `s(a = 1)`: a mistake is invented — `a` is reported absent although it is supplied -/
